@@ -241,3 +241,35 @@ def o2(proj, rep):
             rep.ok('O2', q, 'returns no mutable numqi builder object', m, fi.node, text=f'{q} returns')
     rep.count('O2.cached_functions', n)
     return n
+
+
+# ------------------------------------------------------------------------------------------------ O3
+RULE_O3 = ('O3: the public constructors of the named modules return fresh arrays: none of them is memoised (functools.lru_cache / cache) unless every '
+           'returned ndarray is frozen with `flags.writeable = False`. A memoised constructor hands the same array object to every caller, so an '
+           'in-place edit of one result (psi += ...; psi /= norm) silently corrupts all later calls with the same arguments.')
+
+
+def o3(proj, rep, modules):
+    rep.rule('O3', RULE_O3)
+    cached = cached_functions(proj)
+    if len(cached) < 15:
+        rep.undecided('O3', 'memoisation detector', f'only {len(cached)} memoised functions found in the package (positive control: >= 15 expected)', proj.mod(modules[0]),
+                      proj.mod(modules[0]).tree, text='positive control')
+        return 0
+    n = 0
+    for mq in modules:
+        m = proj.mod(mq)
+        rep.touch(m)
+        for fi in [f for f in proj.funcs.values() if f.module is m and f.cls is None and not f.qual.rsplit('.', 1)[1].startswith('_')]:
+            n += 1
+            if fi.qual in cached:
+                src = ast.unparse(fi.node).replace(' ', '')
+                if 'flags.writeable=False' in src or 'setflags(write=False)' in src:
+                    rep.ok('O3', fi.qual, 'memoised, result frozen', m, fi.node, text=f'{fi.qual} memo')
+                else:
+                    rep.violation('O3', fi.qual, f'public constructor is memoised ({cached[fi.qual]}) and returns its array unfrozen: all callers share one '
+                                  f'mutable object', m, fi.node, text=f'{fi.qual} memo')
+            else:
+                rep.ok('O3', fi.qual, 'not memoised: every call builds a fresh result', m, fi.node, text=f'{fi.qual} memo')
+    rep.count('O3.public_functions', n)
+    return n
